@@ -12,7 +12,10 @@ META = {
             "on every token string up to 6 (quick) / 7 (thorough) tokens over {A, B, and, or, not, (, )} and on the printed form of "
             "every AST of connective depth <= 2 (with complex filters), with the limiter scaled to 2 / 4; the real Display and the real "
             "peg parser are then run on every AST of depth <= 2 over concrete leaves, all ten operators, the spelled-out token strings "
-            "of the model alphabet, deep chains on both sides of the real limit 128, and seeded random ASTs / infix strings; TLC judges "
+            "of the model alphabet, deep chains on both sides of the real limit 128, every string value of up to 3 / 4 characters over "
+            "{a, blank, ( ) [ ] backslash quote tab} (through BOTH grammar copies, kanidm_proto::scim_v1 and scim_proto::filter; the "
+            "quoted-value scanning rule is transcribed and model-checked against 'ends at the first quote after an even run of "
+            "backslashes'), and seeded random ASTs / infix strings; TLC judges "
             "every real parse result (round trip, precedence against the reference reading, rejection beyond the limit).",
     "note": "the grammar design (parenthesisation, precedence, limiter) is decided at model_checking level; lexical fidelity of literals "
             "(escapes, numbers) is exploration by seeded random values. 'nesting' counts the whole filter as level 1 and every group, "
@@ -75,7 +78,9 @@ def run(tier, replay):
     wd = lib.workdir(PID)
     lib.build(fc.GROUP)
     quick = tier == "quick"
-    shards = [dict(name="ast", mode="ast", lim=4, maxlen=1), dict(name="str", mode="str", lim=2, maxlen=6 if quick else 7)]
+    shards = [dict(name="ast", mode="ast", lim=4, maxlen=1), dict(name="str", mode="str", lim=2, maxlen=6 if quick else 7),
+              # lexical layer: every string value over {a, blank, ( ) [ ] backslash quote tab} up to 3 / 4 characters x 6 trailers
+              dict(name="lex", mode="lex", lim=4, maxlen=3 if quick else 4)]
     if not quick:
         shards.append(dict(name="str3", mode="str", lim=3, maxlen=7))
     pool = ThreadPoolExecutor(max_workers=1)
@@ -84,7 +89,7 @@ def run(tier, replay):
     if replay:
         lib.kverif(fc.GROUP, ["c42", "--out", obs, "--replay", replay])
     else:
-        lib.kverif(fc.GROUP, ["c42", "--out", obs, "--seed", lib.seed(), "--adepth", 2, "--plen", 4 if quick else 5,
+        lib.kverif(fc.GROUP, ["c42", "--out", obs, "--seed", lib.seed(), "--adepth", 2, "--plen", 4 if quick else 5, "--vlen", 3 if quick else 4,
                               "--random", 600 if quick else 20000, "--depth", 5 if quick else 7])
     lines = lib.read_lines(obs)
     l1, drift, chunks, tstates = fc.validate_parallel(PID, "KScimTextTrace", lines, 4 if quick else 8, 1500)
@@ -121,7 +126,8 @@ def run(tier, replay):
         "samples": [s if len(json.dumps(s)) < 3000 else {"a": s["a"], "text": s["text"][:300]} for s in lib.sample(lines)],
         "exhaustive": True,
         "l2_drift": len(drift),
-        "model_census": {n: dict(zip(["cases", "accepted", "rejected_by_limit_only"], c)) for n, c in census},
+        "model_census": {n: dict(zip(["values", "ending_in_backslash", "other"] if n == "lex" else ["cases", "accepted", "rejected_by_limit_only"], c))
+                         for n, c in census},
         "observed_accepted": acc, "observed_rejected": rej,
         "real_limit": 128,
         "trace_states": tstates,
